@@ -493,6 +493,11 @@ func (p *pipeline) processPackage(pkg *gombokgen.Package) string {
 				}
 			}
 			res.fail(key, p.origin(st)+st.DeclWithDerives(), "gombok accepted the declaration but the generated code (or a call of a method it must have generated) does not compile: "+strings.Join(errs, " ; "))
+			if st != nil && st.Ann.Json && key == "C07.compile" {
+				// an @fp.Json struct whose generated code does not compile has no JSON round trip either (C15); without this line the
+				// struct is dropped here and the C15 projection of the run never sees it (seed C15-7)
+				res.fail("C15.json-struct-does-not-compile", p.origin(st)+st.DeclWithDerives(), "the code generated for an @fp.Json struct does not compile: "+strings.Join(errs, " ; "))
+			}
 			names[name] = true
 		}
 		removeStructs(pkg, names)
